@@ -11,6 +11,8 @@ package graphsync
 //@ interface graphsync.ResponseData
 //@   pure RequestID
 
+//@ type graphsync.UnregisterHookFunc
+//@   nonnil . -- assumed of the dependency: go-graphsync's Register* functions return non-nil unregister functions
 //@ type requestIDToChannelIDMap
 //@   nonnil m
 //@   lock lk guards m
@@ -27,13 +29,16 @@ package graphsync
 // request id -> channel id map (C16)
 
 //@ func (*graphsync.requestIDToChannelIDMap).load {C16,C20}
+//@   acquires {C20} requestIDToChannelIDMap.lk
 //@   reads
 //@   ensures [lookup] untouched
 //@ func (*graphsync.requestIDToChannelIDMap).set {C16,C20}
+//@   acquires {C20} requestIDToChannelIDMap.lk
 //@   modifies m.m
 //@   guarantee [sets-only-key] forall k graphsync.RequestID :: (k == key ==> has(self.m, k) && self.m[k].channelID == chid && self.m[k].sending == sending) &&
 //@       (k != key ==> has(self.m, k) == old(has(self.m, k)) && (has(self.m, k) ==> self.m[k] == old(self.m[k])))
 //@ func (*graphsync.requestIDToChannelIDMap).deleteRefs {C16,C20}
+//@   acquires {C20} requestIDToChannelIDMap.lk
 //@   modifies m.m
 //@   loop 0 invariant [progress] forall k graphsync.RequestID ::
 //@       (has(m.m, k) ==> old(has(m.m, k)) && m.m[k] == old(m.m[k])) &&
@@ -43,6 +48,7 @@ package graphsync
 //@       (has(self.m, k) ==> self.m[k] == old(self.m[k])) -- every request id of the channel is forgotten, every other mapping is kept
 
 //@ func (*graphsync.requestIDToChannelIDMap).forEach {C16,C20}
+//@   acquires {C20} requestIDToChannelIDMap.lk
 //@   requires f != nil
 //@   loop 0 invariant [read-only] forall k graphsync.RequestID :: has(m.m, k) == old(has(m.m, k)) && (has(m.m, k) ==> m.m[k] == old(m.m[k]))
 //@   loop 0 step [entry-as-stored] calls(dyn.func) == 1 && all(dyn.func, has(m.m, $1) && $2 == m.m[$1].sending && $3 == m.m[$1].channelID)
@@ -51,7 +57,8 @@ package graphsync
 // graphsync callbacks: every event is routed through the request id -> channel id map (C16)
 
 //@ extern func (github.com/ipfs/go-graphsync.IncomingBlockHookActions).TerminateWithError
-//@ func (*graphsync.Transport).gsIncomingBlockHook {C16,C07}
+//@ func (*graphsync.Transport).gsIncomingBlockHook {C16,C07,C01}
+//@   acquires {C20} channels.blockIndexCache.lk, channels.progressCache.lk, graphsync.requestIDToChannelIDMap.lk, tracing.SpansIndex.spansLk
 //@   requires response != nil && block != nil && hookActions != nil && t.events != nil
 //@   ensures [looked-up] called(requestIDToChannelIDMap.load, _, response.RequestID())
 //@   ensures [unknown-request] !ret(requestIDToChannelIDMap.load, 1) ==> untouched
@@ -61,6 +68,7 @@ package graphsync
 //@   ensures [pause] calls(IncomingBlockHookActions.PauseRequest) == 1 <==> calls(EventsHandler.OnDataReceived) == 1 && ret(EventsHandler.OnDataReceived, 0) == datatransfer.ErrPause
 
 //@ func (*graphsync.Transport).gsBlockSentHook {C16,C07}
+//@   acquires {C20} channels.blockIndexCache.lk, channels.progressCache.lk, graphsync.requestIDToChannelIDMap.lk, tracing.SpansIndex.spansLk
 //@   requires request != nil && block != nil && t.events != nil
 //@   ensures [wire-filter] block.BlockSizeOnWire() == 0 ==> untouched && never(requestIDToChannelIDMap.load)
 //@   ensures [unknown-request] calls(requestIDToChannelIDMap.load) == 1 && !ret(requestIDToChannelIDMap.load, 1) ==> untouched
@@ -69,6 +77,7 @@ package graphsync
 //@   ensures [only] only(requestIDToChannelIDMap.load, EventsHandler.OnDataSent)
 
 //@ func (*graphsync.Transport).gsOutgoingBlockHook {C16,C07,C08}
+//@   acquires {C20} channels.blockIndexCache.lk, channels.progressCache.lk, graphsync.requestIDToChannelIDMap.lk, tracing.SpansIndex.spansLk
 //@   loop 0 invariant [extensions] $i >= 0
 //@   requires request != nil && block != nil && hookActions != nil && t.events != nil
 //@   ensures [wire-filter] block.BlockSizeOnWire() == 0 ==> untouched && never(requestIDToChannelIDMap.load)
@@ -78,12 +87,14 @@ package graphsync
 //@   ensures [pause] calls(OutgoingBlockHookActions.PauseResponse) == 1 <==> calls(EventsHandler.OnDataQueued) == 1 && ret(EventsHandler.OnDataQueued, 1) == datatransfer.ErrPause
 
 //@ func (*graphsync.Transport).gsRequestProcessingListener {C16}
+//@   acquires {C20} graphsync.requestIDToChannelIDMap.lk
 //@   requires request != nil && t.events != nil
 //@   ensures [unknown-request] !ret(requestIDToChannelIDMap.load, 1) ==> untouched
 //@   ensures [routed] all(EventsHandler.OnTransferInitiated, $1 == ret(requestIDToChannelIDMap.load, 0)) && all(requestIDToChannelIDMap.load, $1 == request.ID()) &&
 //@       only(requestIDToChannelIDMap.load, EventsHandler.OnTransferInitiated)
 
 //@ func (*graphsync.Transport).gsCompletedResponseListener {C16,C01}
+//@   acquires {C20} graphsync.requestIDToChannelIDMap.lk, tracing.SpansIndex.spansLk
 //@   requires request != nil && t.events != nil
 //@   ensures [unknown-request] !ret(requestIDToChannelIDMap.load, 1) ==> untouched
 //@   ensures [cancelled-is-not-completion] status == graphsync.RequestCancelled ==> untouched
@@ -92,12 +103,14 @@ package graphsync
 //@       all(requestIDToChannelIDMap.load, $1 == request.ID())
 
 //@ func (*graphsync.Transport).gsNetworkSendErrorListener {C16}
+//@   acquires {C20} graphsync.requestIDToChannelIDMap.lk
 //@   requires request != nil && t.events != nil
 //@   ensures [unknown-request] !ret(requestIDToChannelIDMap.load, 1) ==> untouched
 //@   ensures [routed] all(EventsHandler.OnSendDataError, $1 == ret(requestIDToChannelIDMap.load, 0) && $2 == gserr) && all(requestIDToChannelIDMap.load, $1 == request.ID()) &&
 //@       only(requestIDToChannelIDMap.load, EventsHandler.OnSendDataError)
 
 //@ func (*graphsync.Transport).gsNetworkReceiveErrorListener {C16}
+//@   acquires {C20} graphsync.requestIDToChannelIDMap.lk
 //@   ensures [per-request] seq(requestIDToChannelIDMap.forEach)
 //@ func (*graphsync.Transport).gsNetworkReceiveErrorListener$1 {C16}
 //@   requires *t != nil && (**t).events != nil
@@ -105,12 +118,14 @@ package graphsync
 //@       (calls(EventsHandler.OnReceiveDataError) == 1 <==> (chid.Initiator == *p || chid.Responder == *p)) && only(EventsHandler.OnReceiveDataError)
 
 //@ func (*graphsync.Transport).gsRequestorCancelledListener {C16}
+//@   acquires {C20} graphsync.Transport.dtChannelsLk, graphsync.dtChannel.lk, graphsync.requestIDToChannelIDMap.lk
 //@   requires request != nil
 //@   ensures [unknown-request] !ret(requestIDToChannelIDMap.load, 1) ==> untouched
 //@   ensures [routed] all(Transport.getDTChannel, $1 == ret(requestIDToChannelIDMap.load, 0)) && all(requestIDToChannelIDMap.load, $1 == request.ID()) &&
 //@       all(dtChannel.onRequesterCancelled, $0 == ret(Transport.getDTChannel, 0)) && only(requestIDToChannelIDMap.load, Transport.getDTChannel, dtChannel.onRequesterCancelled)
 
 //@ func (*graphsync.Transport).processExtension {C05,C16}
+//@   acquires {C20} channels.progressCache.lk, graphsync.Transport.dtChannelsLk, graphsync.dtChannel.lk, graphsync.dtChannel.optionsLk, graphsync.requestIDToChannelIDMap.lk, registry.Registry.registryLk, transportoptions.TransportOptions.optionsLk
 //@   requires gsMsg != nil && t.events != nil
 //@   after GetTransferData [decoders-are-FromIPLD] $r1 == nil && $r0 != nil ==> ($r0.IsRequest() ? implements($r0, datatransfer.Request) : implements($r0, datatransfer.Response))
 //@   ensures [no-extension] calls(GetTransferData) == 1 && ret(GetTransferData, 0) == nil ==> never(EventsHandler.OnRequestReceived) && never(EventsHandler.OnResponseReceived)
@@ -122,17 +137,20 @@ package graphsync
 //@       only(GetTransferData, EventsHandler.OnRequestReceived, EventsHandler.OnResponseReceived)
 
 //@ func (*graphsync.Transport).gsRequestUpdatedHook {C16,C05}
+//@   acquires {C20} channels.progressCache.lk, graphsync.Transport.dtChannelsLk, graphsync.dtChannel.lk, graphsync.dtChannel.optionsLk, graphsync.requestIDToChannelIDMap.lk, registry.Registry.registryLk, transportoptions.TransportOptions.optionsLk
 //@   loop 0 invariant [extensions] $i >= 0
 //@   requires request != nil && update != nil && hookActions != nil && t.events != nil
 //@   ensures [unknown-request] !ret(requestIDToChannelIDMap.load, 1) ==> untouched
 //@   ensures [routed] all(Transport.processExtension, $1 == ret(requestIDToChannelIDMap.load, 0) && $2 == update && $3 == p) && all(requestIDToChannelIDMap.load, $1 == request.ID())
 //@ func (*graphsync.Transport).gsIncomingResponseHook {C16,C05}
+//@   acquires {C20} channels.progressCache.lk, graphsync.Transport.dtChannelsLk, graphsync.dtChannel.lk, graphsync.dtChannel.optionsLk, graphsync.requestIDToChannelIDMap.lk, registry.Registry.registryLk, transportoptions.TransportOptions.optionsLk
 //@   loop 0 invariant [extensions] $i >= 0
 //@   requires response != nil && hookActions != nil && t.events != nil
 //@   ensures [unknown-request] !ret(requestIDToChannelIDMap.load, 1) ==> untouched
 //@   ensures [routed] all(Transport.processExtension, $1 == ret(requestIDToChannelIDMap.load, 0) && $2 == response && $3 == p) && all(requestIDToChannelIDMap.load, $1 == response.RequestID())
 
 //@ func (*graphsync.Transport).gsOutgoingRequestHook {C16,C05}
+//@   acquires {C20} graphsync.Transport.dtChannelsLk, graphsync.dtChannel.lk, graphsync.dtChannel.optionsLk, graphsync.requestIDToChannelIDMap.lk
 //@   requires request != nil && hookActions != nil && t.events != nil
 //@   ensures [no-extension] ret(GetTransferData, 0) == nil ==> untouched
 //@   ensures [derived-id] all(EventsHandler.OnChannelOpened, $1 == (ret(GetTransferData, 0).IsRequest() ?
@@ -143,31 +161,39 @@ package graphsync
 //@   ensures [untracked-not-opened] calls(EventsHandler.OnChannelOpened) == 1 && ret(EventsHandler.OnChannelOpened, 0) != nil ==> never(dtChannel.gsReqOpened) && last(Transport.CleanupChannel)
 
 //@ func (*graphsync.Transport).trackDTChannel {C16,C20}
+//@   acquires {C20} Transport.dtChannelsLk
 //@   modifies t.dtChannels
 //@   ensures [tracked] result != nil
 //@ func (*graphsync.Transport).getDTChannel {C16,C20}
+//@   acquires {C20} Transport.dtChannelsLk
 //@   reads
 //@   ensures [found-or-error] (err == nil) == (result0 != nil)
 
 //@ func (*graphsync.Transport).CleanupChannel {C16,C09,C20}
+//@   acquires {C20} Transport.dtChannelsLk, dtChannel.lk, dtChannel.optionsLk, requestIDToChannelIDMap.lk
 //@   modifies t.dtChannels
 //@   guarantee [forgets-only-this] forall k datatransfer.ChannelID :: (has(self.dtChannels, k) <==> old(has(self.dtChannels, k)) && k != chid) &&
 //@       (has(self.dtChannels, k) ==> self.dtChannels[k] == old(self.dtChannels[k]))
 //@   ensures [cleans-the-tracked-channel] calls(dtChannel.cleanup) <= 1 && only(dtChannel.cleanup)
 
 //@ func (*graphsync.dtChannel).cleanup {C16,C09,C20}
+//@   acquires {C20} dtChannel.lk, dtChannel.optionsLk, requestIDToChannelIDMap.lk
 //@   ensures [forget] last(requestIDToChannelIDMap.deleteRefs, $0 == c.t.requestIDToChannelID && $1 == c.channelID) && calls(requestIDToChannelIDMap.deleteRefs) == 1
 //@   ensures [store-lifetime] calls(GraphExchange.UnregisterPersistenceOption) == (ret(dtChannel.hasStore, 0) ? 1 : 0) &&
 //@       all(GraphExchange.UnregisterPersistenceOption, $1 == "data-transfer-" + c.channelID.String())
 //@ func (*graphsync.dtChannel).hasStore {C16,C20}
+//@   acquires {C20} dtChannel.optionsLk
 //@   reads
 //@ func (*graphsync.dtChannel).maxLinks {C20}
+//@   acquires {C20} dtChannel.optionsLk
 //@   reads
 //@ func (*graphsync.dtChannel).useStore {C16,C20}
+//@   acquires {C20} dtChannel.optionsLk
 //@   modifies c.storeRegistered
 //@   ensures [same-name] all(GraphExchange.RegisterPersistenceOption, $1 == "data-transfer-" + c.channelID.String()) && calls(GraphExchange.RegisterPersistenceOption) == 1
 //@   guarantee [registered-iff-ok] self.storeRegistered == (old(self.storeRegistered) || ret(GraphExchange.RegisterPersistenceOption, 0) == nil)
 //@ func (*graphsync.dtChannel).onRequesterCancelled {C16,C10,C20}
+//@   acquires {C20} dtChannel.lk
 //@   modifies c.requesterCancelled
 //@   guarantee [marks] self.requesterCancelled && self.requestID == old(self.requestID) && self.isOpen == old(self.isOpen)
 
@@ -182,6 +208,7 @@ package graphsync
 //@ func (*graphsync.Transport).consumeResponses {C01}
 //@   opaque -- drains the graphsync response and error channels; the last error is returned (loops over channels: not modelled)
 //@ func (*graphsync.Transport).executeGsRequest {C01,C16}
+//@   acquires {C20} tracing.SpansIndex.spansLk
 //@   requires req != nil && t.events != nil && (*req).onComplete != nil
 //@   ensures [drains-first] first(Transport.consumeResponses, $1 == req)
 //@   ensures [client-cancel] dyntype_is(ret(Transport.consumeResponses, 0), graphsync.RequestClientCancelledErr) ==>
@@ -193,3 +220,68 @@ package graphsync
 //@       calls(EventsHandler.OnChannelCompleted) == 1 && all(EventsHandler.OnChannelCompleted, $1 == (*req).channelID &&
 //@           (($2 == nil) == (ret(Transport.consumeResponses, 0) == nil)) && ($2 != nil ==> errIs($2, ret(Transport.consumeResponses, 0))))
 //@   ensures [always-signals-completion-hook] last(dyn.func)
+
+// ---------------------------------------------------------------------------------------------
+// channel operations: locks held, lock effects (C20); closing never hangs (C09)
+
+//@ func (*graphsync.dtChannel).cancel {C09,C20}
+//@   locked c.lk -- "must be called under the lock"
+//@ func (*graphsync.dtChannel).open {C20}
+//@   acquires {C20} graphsync.dtChannel.lk
+//@   cancellable ctx
+//@ func (*graphsync.dtChannel).close {C09,C20}
+//@   acquires {C20} graphsync.dtChannel.lk
+//@   cancellable ctx
+//@ func (*graphsync.dtChannel).shutdown {C20}
+//@   acquires {C20} graphsync.dtChannel.lk
+//@   cancellable ctx
+//@ func (*graphsync.dtChannel).pause {C20}
+//@   acquires {C20} graphsync.dtChannel.lk
+//@ func (*graphsync.dtChannel).resume {C20}
+//@   acquires {C20} graphsync.dtChannel.lk
+//@ func (*graphsync.dtChannel).gsReqOpened {C16,C20}
+//@   acquires {C20} graphsync.dtChannel.optionsLk, graphsync.requestIDToChannelIDMap.lk
+//@   requires hookActions != nil
+//@ func (*graphsync.dtChannel).gsDataRequestRcvd {C16,C20}
+//@   acquires {C20} graphsync.dtChannel.optionsLk, graphsync.requestIDToChannelIDMap.lk
+//@   locked c.lk -- "must be called under the lock"
+//@   requires hookActions != nil
+//@   loop 0 invariant [pending] $i >= 0
+//@ func (*graphsync.dtChannel).setMaxLinks {C20}
+//@   acquires {C20} graphsync.dtChannel.optionsLk
+//@ func (*graphsync.requestIDToChannelIDMap).any {C20}
+//@   acquires {C20} graphsync.requestIDToChannelIDMap.lk
+//@   loop 0 invariant [scan] $i >= 0
+//@ func (*graphsync.Transport).gsReqRecdHook {C16,C20}
+//@   acquires {C20} channels.progressCache.lk, graphsync.Transport.dtChannelsLk, graphsync.dtChannel.lk, graphsync.dtChannel.optionsLk, graphsync.requestIDToChannelIDMap.lk, registry.Registry.registryLk, transportoptions.TransportOptions.optionsLk
+//@   requires request != nil && hookActions != nil && t.events != nil
+//@   loop 0 invariant [extensions] $i >= 0
+//@ func (*graphsync.Transport).OpenChannel {C16,C20}
+//@   acquires {C20} graphsync.Transport.dtChannelsLk, graphsync.dtChannel.lk
+//@ func (*graphsync.Transport).PauseChannel {C20}
+//@   acquires {C20} graphsync.Transport.dtChannelsLk, graphsync.dtChannel.lk
+//@ func (*graphsync.Transport).ResumeChannel {C20}
+//@   acquires {C20} graphsync.Transport.dtChannelsLk, graphsync.dtChannel.lk
+//@ func (*graphsync.Transport).CloseChannel {C09,C20}
+//@   acquires {C20} graphsync.Transport.dtChannelsLk, graphsync.dtChannel.lk
+//@ func (*graphsync.Transport).UseStore {C20}
+//@   acquires {C20} graphsync.Transport.dtChannelsLk, graphsync.dtChannel.optionsLk
+//@ func (*graphsync.Transport).MaxLinks {C20}
+//@   acquires {C20} graphsync.Transport.dtChannelsLk, graphsync.dtChannel.optionsLk
+//@ func (*graphsync.Transport).Shutdown {C20}
+//@   acquires {C20} graphsync.Transport.dtChannelsLk
+//@   loop 0 invariant [unregister] $i >= 0
+//@   loop 1 invariant [channels] true
+//@ func (*graphsync.Transport).ChannelsForPeer {C20}
+//@   acquires {C20} graphsync.Transport.dtChannelsLk, graphsync.requestIDToChannelIDMap.lk
+//@ func (*graphsync.Transport).ChannelsForPeer$1 {C20}
+//@   rlocked (*t).dtChannelsLk
+//@ func graphsync.UseStore$1 {C20}
+//@   acquires {C20} graphsync.Transport.dtChannelsLk, graphsync.dtChannel.optionsLk
+//@   refines dyn.TransportOption
+//@ func graphsync.MaxLinks$1 {C20}
+//@   acquires {C20} graphsync.Transport.dtChannelsLk, graphsync.dtChannel.optionsLk
+//@   refines dyn.TransportOption
+//@ func (*graphsync.Transport).Shutdown$1 {C20}
+//@   acquires {C20} graphsync.dtChannel.lk
+//@   requires *ch != nil
